@@ -345,7 +345,8 @@ def runOpts (c : Case) : List String :=
       | .norun => l0 ++ [savedLine, "txt renorun"]
       | .run _ vars2 => l0 ++ [savedLine, "txt rerun", varsLine vars2]
 
-/-- fpiter <id> <n> <dt> <fptype> <steps> <every> ; extra = e1 qmin qmax pmin pmax ; data -/
+/-- fpiter <id> <n> <dt> <fptype> <steps> <every> [<nb>] ; extra = e1 qmin qmax pmin pmax ; data (nb bunches);
+    one `vals` line per bunch at every printed step -/
 def runFPIter (c : Case) : List String :=
   let n := natArg c 2
   let dt := natArg c 3
@@ -364,17 +365,19 @@ def runFPIter (c : Case) : List String :=
   let ltyc : Nat → Bool := fun j => decide (Float32.ofNat j < yc)
   let rows := ((List.range n).map fun j => fpRowAt dt fpt n jc ltyc e1 delta p j).toArray
   let rowAt : Nat → List (Hi Float32) := fun j => rows.getD j []
-  let moments (g : Array Float32) (k : Nat) : String :=
-    let (m0, m1, m2) := (List.range (n * n)).foldl (fun (acc : Float × Float × Float) i =>
-      let pv := (p (i % n)).toFloat
-      let v := (g.getD i f32zero).toFloat
-      (acc.1 + v, acc.2.1 + v * pv, acc.2.2 + v * pv * pv)) (0.0, 0.0, 0.0)
-    hexLine "vals" [Float32.ofNat k, m0.toFloat32, m1.toFloat32, m2.toFloat32]
+  let nb := max (natArg c 7) 1
+  let moments (g : Array Float32) (k : Nat) : List String :=
+    (List.range nb).map fun b =>
+      let (m0, m1, m2) := (List.range (n * n)).foldl (fun (acc : Float × Float × Float) i =>
+        let pv := (p (i % n)).toFloat
+        let v := (g.getD (b * n * n + i) f32zero).toFloat
+        (acc.1 + v, acc.2.1 + v * pv, acc.2.2 + v * pv * pv)) (0.0, 0.0, 0.0)
+      hexLine "vals" [Float32.ofNat k, m0.toFloat32, m1.toFloat32, m2.toFloat32]
   let (g, lines) := (List.range steps).foldl (fun (acc : Array Float32 × List String) k0 =>
     let (g, out) := acc
     let k := k0 + 1
-    let g' := (fpApply n 1 rowAt (fun i => g.getD i f32zero)).toArray
-    (g', if k % every == 0 || k == steps then out ++ [moments g' k] else out)) (c.data, [moments c.data 0])
+    let g' := (fpApply n nb rowAt (fun i => g.getD i f32zero)).toArray
+    (g', if k % every == 0 || k == steps then out ++ moments g' k else out)) (c.data, moments c.data 0)
   ["case " ++ c.id] ++ lines ++ [hexLine "out" g.toList]
 
 /-! ### simulation part of main(): schedule of records -/
